@@ -751,6 +751,14 @@ func indexDischarged(fn *ssa.Function, blk *ssa.BasicBlock, base, index ssa.Valu
 			}
 		}
 	}
+	// 5. a list consumed k elements at a time (for ; len(xs) > 0; xs = xs[k:] { xs[0] … xs[k-1] }):
+	// the length is a multiple of k on entry (a remainder test with an exit on the odd side) and
+	// stays one, so "not empty" means "at least k elements"
+	if k, ok := index.(*ssa.Const); ok && k.Value != nil && k.Value.Kind() == constant.Int {
+		if chunkedList(fn, blk, base, k.Int64(), kind) {
+			return true
+		}
+	}
 	// 3. scanning positions of a string: the position is bounded by induction over the places
 	// it is advanced at (see posBound)
 	if isString(base.Type()) && idxEngine != nil {
@@ -761,6 +769,124 @@ func indexDischarged(fn *ssa.Function, blk *ssa.BasicBlock, base, index ssa.Valu
 		return pb.ltLen(index, blk)
 	}
 	return false
+}
+
+// chunkedList: base is a loop variable xs = phi(init, xs[k:]); len(init) % k is tested with
+// the non-zero side leaving the function; the access lies on the len(xs) > 0 side of the loop
+// test; the constant index is below k (index) or at most k (slice bound).
+func chunkedList(fn *ssa.Function, blk *ssa.BasicBlock, base ssa.Value, c int64, kind string) bool {
+	ph, ok := base.(*ssa.Phi)
+	if !ok {
+		return false
+	}
+	if _, isSlice := ph.Type().Underlying().(*types.Slice); !isSlice {
+		return false
+	}
+	var init ssa.Value
+	k := int64(0)
+	for _, e := range ph.Edges {
+		if sl, ok := e.(*ssa.Slice); ok && sl.X == ssa.Value(ph) && sl.High == nil && sl.Low != nil {
+			kc, ok := sl.Low.(*ssa.Const)
+			if !ok || kc.Value == nil {
+				return false
+			}
+			if k != 0 && k != kc.Int64() {
+				return false
+			}
+			k = kc.Int64()
+			continue
+		}
+		if init != nil && init != e {
+			return false
+		}
+		init = e
+	}
+	if init == nil || k < 1 {
+		return false
+	}
+	if c < 0 || (kind == "index" && c >= k) || (kind == "slice" && c > k) {
+		return false
+	}
+	// the loop test: len(xs) > 0 (or != 0, >= 1) on the way to the access
+	nonEmpty := false
+	for d := blk; d != nil; d = d.Idom() {
+		par := d.Idom()
+		if par == nil || len(par.Instrs) == 0 {
+			continue
+		}
+		ifi, ok := par.Instrs[len(par.Instrs)-1].(*ssa.If)
+		if !ok || !(par.Succs[0].Dominates(blk) && len(par.Succs[0].Preds) == 1) {
+			continue
+		}
+		cmp, ok := ifi.Cond.(*ssa.BinOp)
+		if !ok || !sameLen(cmp.X, ph) {
+			continue
+		}
+		if (cmp.Op == token.GTR && isConstInt(cmp.Y, 0)) || (cmp.Op == token.NEQ && isConstInt(cmp.Y, 0)) || (cmp.Op == token.GEQ && isConstInt(cmp.Y, 1)) {
+			nonEmpty = true
+		}
+	}
+	if !nonEmpty {
+		return false
+	}
+	// len(init) % k tested, the non-zero side leaves (panic / error return), and the test dominates the loop
+	for _, b := range fn.Blocks {
+		if len(b.Instrs) == 0 || !b.Dominates(ph.Block()) {
+			continue
+		}
+		ifi, ok := b.Instrs[len(b.Instrs)-1].(*ssa.If)
+		if !ok {
+			continue
+		}
+		cmp, ok := ifi.Cond.(*ssa.BinOp)
+		if !ok || (cmp.Op != token.EQL && cmp.Op != token.NEQ) {
+			continue
+		}
+		rem, ok := cmp.X.(*ssa.BinOp)
+		if !ok || rem.Op != token.REM || !isConstInt(rem.Y, k) || !sameLen(rem.X, init) {
+			continue
+		}
+		rc, ok := cmp.Y.(*ssa.Const)
+		if !ok || rc.Value == nil {
+			continue
+		}
+		// which successor is taken when the remainder is not zero?
+		var oddSucc *ssa.BasicBlock
+		switch {
+		case cmp.Op == token.NEQ && rc.Int64() == 0:
+			oddSucc = b.Succs[0]
+		case cmp.Op == token.EQL && rc.Int64() == 0:
+			oddSucc = b.Succs[1]
+		case cmp.Op == token.EQL && k == 2 && rc.Int64() == 1:
+			oddSucc = b.Succs[0]
+		case cmp.Op == token.NEQ && k == 2 && rc.Int64() == 1:
+			oddSucc = b.Succs[1]
+		}
+		if oddSucc != nil && leavesFunction(oddSucc, 0) && !oddSucc.Dominates(ph.Block()) {
+			return true
+		}
+	}
+	return false
+}
+
+// leavesFunction: every path from b ends in a panic or a return without reaching a loop.
+func leavesFunction(b *ssa.BasicBlock, depth int) bool {
+	if depth > 6 || len(b.Instrs) == 0 {
+		return false
+	}
+	switch b.Instrs[len(b.Instrs)-1].(type) {
+	case *ssa.Panic, *ssa.Return:
+		return true
+	}
+	if len(b.Succs) == 0 {
+		return false
+	}
+	for _, s := range b.Succs {
+		if !leavesFunction(s, depth+1) {
+			return false
+		}
+	}
+	return true
 }
 
 // equalLengthAccessors: node types whose two list accessors are of equal length by construction
